@@ -32,6 +32,7 @@ def build():
     return vlib.build("c09", REWRITES, INJECTS, "./internal/zzverif_c09")
 
 
+S7 = ["S7:workers=1;pending=1", "S7:workers=1;pending=3", "S7:workers=2;pending=2", "S7:workers=3;pending=4"]
 RACE_INJECTS = [("harness/libacc/lib_verif.go", "pkg/station/lib/zz_verif_acc.go"), ("harness/c09/race/main.go", "internal/zzverif_c09race/main.go")]
 
 
@@ -48,11 +49,11 @@ def race_companion(tier):
 def run(tier, seed, t0):
     w = build()
     budget = 1500 if tier == "thorough" else 170
-    scen = S15 + S6Q + (S6T if tier == "thorough" else [])
+    scen = S15 + S6Q + S7 + (S6T if tier == "thorough" else [])
     res = vlib.run_workers(w, [["-scenario", s, "-tier", tier, "-budget", str(budget)] for s in scen], timeout=budget + 180)
     res += race_companion(tier)
     vlib.finish(PID, tier, "model_checking", res, t0, ASSUME,
-                "stateless DFS (state-key pruning; no preemption bound for S1-S4, bound 2/3 for S5, 1 (quick) / 2-3 (thorough) for the pipeline) over interleavings of: S1 two workers ingesting the same registration + a connection handler (lookup, activate) twice; S2/S2b two workers with the same secret and transport but different covert (forbidden literal / name resolving to a forbidden address vs permitted) + connection; S3 duplicate worker + sweeper + connection around the 10 min expiry; S4 worker + OnReload that flips the covert policy + lookup; S5 three workers + sweeper; S6 the real HandleRegUpdates with 1/2/3 (thorough: also 10, i.e. a buffered hand-off) workers, a feeder, probes blocked until released, and a stop request at any moment with and without further input",
+                "stateless DFS (state-key pruning; no preemption bound for S1-S4, bound 2/3 for S5, 1 (quick) / 2-3 (thorough) for the pipeline) over interleavings of: S1 two workers ingesting the same registration + a connection handler (lookup, activate) twice; S2/S2b two workers with the same secret and transport but different covert (forbidden literal / name resolving to a forbidden address vs permitted) + connection; S3 duplicate worker + sweeper + connection around the 10 min expiry; S4 worker + OnReload that flips the covert policy + lookup; S5 three workers + sweeper; S6 the real HandleRegUpdates with 1/2/3 (thorough: also 10, i.e. a buffered hand-off) workers, a feeder, probes blocked until released, and a stop request at any moment with and without further input; S7 the stop request issued with k registrations already queued when the distributor reaches its receive point, select resolved in favour of the stop request: the pipeline must wind down without working through the queue",
                 seed=seed)
 
 
